@@ -1,1 +1,64 @@
-From QS Require Import theories.Backtest.
+(** C14 — A session trades only at scheduled rebalances after burn-in; equity is daily. *)
+From Coq Require Import ZArith QArith String List Sorted.
+From QS Require Import theories.Num theories.Position theories.Exchange theories.Broker theories.Clock theories.Backtest
+  proofs.Orders proofs.BacktestProofs.
+Import ListNotations.
+Open Scope Z_scope.
+
+(** In every run that ends without an error: the recorded allocation rows (one per portfolio
+    construction) are stamped with exactly the clock instants that are scheduled and not earlier
+    than the burn-in, in order; the equity points with exactly the market-close events not earlier
+    than the burn-in, in order. *)
+Theorem construction_and_equity_times :
+  forall cfg sched market evs st,
+    tr_noerr (run_from cfg sched market st evs) ->
+    map fst (filter (fun o => o_alloc (snd o)) (run_from cfg sched market st evs)) =
+      filter (reb_at cfg sched) (map fst evs) /\
+    map fst (filter (fun o => o_equity (snd o)) (run_from cfg sched market st evs)) =
+      map fst (filter (fun e => match snd e with MarketClose => burn_ok cfg (fst e) | _ => false end) evs).
+Proof. exact run_alloc_and_equity_times. Qed.
+Print Assumptions construction_and_equity_times.
+
+(** per event: exactly one allocation row iff it is a rebalance instant, exactly one equity point
+    iff it is a market close (burn-in permitting) *)
+Theorem one_event :
+  forall cfg sched st t k snap st' outs,
+    event_step cfg sched st t k snap = (st', outs, None) ->
+    length (filter o_alloc outs) = (if reb_at cfg sched t then 1 else 0)%nat /\
+    length (filter o_equity outs) = (match k with MarketClose => if burn_ok cfg t then 1 else 0 | _ => 0 end)%nat /\
+    Forall o_noerr outs.
+Proof. exact event_step_shape. Qed.
+Print Assumptions one_event.
+
+(** fills occur only at instants inside exchange hours - among the clock's events these are the
+    market-open events (C04: 14:30 is open, 21:00 / 00:00 / 23:59 are closed) *)
+Theorem fills_only_when_exchange_open :
+  forall cfg sched market evs st t tx,
+    In (t, OFill tx) (run_from cfg sched market st evs) -> is_open t = true.
+Proof. exact fills_only_in_exchange_hours. Qed.
+Print Assumptions fills_only_when_exchange_open.
+
+(** no fill ever precedes the first portfolio construction *)
+Theorem no_fill_before_the_first_rebalance :
+  forall cfg sched market evs st,
+    StronglySorted ev_lt evs -> qids (b_accts (ss_broker st)) = [] ->
+    tr_noerr (run_from cfg sched market st evs) ->
+    forall t tx, In (t, OFill tx) (run_from cfg sched market st evs) ->
+    exists ta w, In (ta, OAlloc w) (run_from cfg sched market st evs) /\ ta <= t.
+Proof. exact no_fill_before_first_rebalance. Qed.
+Print Assumptions no_fill_before_the_first_rebalance.
+
+(** Non-vacuity: weekly (Wednesday) rebalancing with a burn-in on the second Wednesday's close:
+    construction runs once, the fill comes at Thursday's open, equity is daily from the burn-in on. *)
+Definition cfg14 : config :=
+  mkCfg (18267 * 86400) (18277 * 86400 + 86340) (PCM.StaticU ["A"%string]) (AFixed [("A"%string, 1%Q)])
+        (10000 # 1)%Q (RWeekly "WED") true 0%Q Fees.ZeroFee (Some (18276 * 86400 + 75600)) None.
+Example session_nonvacuous :
+  exists tr, run cfg14 (fun _ => [("A"%string, (100 # 1)%Q)]) = Ok tr /\ tr_noerr tr /\
+    map fst (filter (fun o => o_alloc (snd o)) tr) = [18276 * 86400 + 75600] /\
+    map fst (filter (fun o => o_fill (snd o)) tr) = [18277 * 86400 + 52200] /\
+    map fst (filter (fun o => o_equity (snd o)) tr) = [18276 * 86400 + 75600; 18277 * 86400 + 75600].
+Proof.
+  eexists. split; [vm_compute; reflexivity|]. split; [repeat constructor|]. repeat split; reflexivity.
+Qed.
+Print Assumptions session_nonvacuous.
